@@ -32,6 +32,7 @@ type FuncContract struct {
 	Props    []string
 	Requires []*Clause
 	Ensures  []*Clause
+	ClosureInv []*Clause // closures: facts about captured variables, proved at creation, assumed when the closure runs (must be stable)
 	Asserts  map[string][]*Clause // point (e.g. "select 1") -> assertions proved at that point
 	Assumes  []*Clause // definitional assumptions (listed in the evidence), asserted at function entry
 	Modifies []string // raw modifies items
@@ -113,7 +114,9 @@ type PkgSpec struct {
 	Objects map[string]*ObjectSpec
 	Lemmas  []*Lemma
 	Axioms  []*Axiom
-	Ghosts  []SpecParam // package-level ghost heaps: name : K -> V written "name: map[K]V"
+	Ghosts  []SpecParam // package-level ghost maps "name: K -> V [owned|once]"
+	Ginvs   []*Clause   // global invariants: hold whenever no critical section of the objects involved is in progress; also at atomic operations
+	Gtrans  []*Clause   // two-state guarantees every atomic action satisfies (rely of the others)
 	Assumes []string    // free-text assumptions recorded for the evidence
 }
 
@@ -204,6 +207,16 @@ func ParseSpecFile(path, pkgPath string, ps *PkgSpec) error {
 			lm.Pkg = pkgPath
 			lm.C.Line, lm.C.File = l.n, path
 			ps.Lemmas = append(ps.Lemmas, lm)
+		case "ginv", "gtrans":
+			c, err := mkClause(l.n, rest)
+			if err != nil {
+				return err
+			}
+			if kw == "ginv" {
+				ps.Ginvs = append(ps.Ginvs, c)
+			} else {
+				ps.Gtrans = append(ps.Gtrans, c)
+			}
 		case "axiom":
 			c, err := mkClause(l.n, rest)
 			if err != nil {
@@ -245,6 +258,15 @@ func ParseSpecFile(path, pkgPath string, ps *PkgSpec) error {
 			}
 			pt = strings.TrimSpace(pt)
 			curF.Asserts[pt] = append(curF.Asserts[pt], c)
+		case "captured":
+			if curF == nil {
+				return fail(l.n, "captured outside func block")
+			}
+			c, err := mkClause(l.n, rest)
+			if err != nil {
+				return err
+			}
+			curF.ClosureInv = append(curF.ClosureInv, c)
 		case "assume":
 			if curF == nil {
 				return fail(l.n, "assume outside func block")
